@@ -18,6 +18,7 @@ import (
 	"net"
 	"os"
 	"path/filepath"
+	"syscall"
 	"testing"
 	"time"
 
@@ -77,6 +78,7 @@ type c14Server struct {
 	addr   string
 	signer gossh.Signer
 	cancel context.CancelFunc
+	fl     *c14FaultListener // nil: the server listens by itself (Start)
 }
 
 func (srv *c14Server) counter() int {
@@ -133,6 +135,50 @@ func c14Setup(t *testing.T, dir string) {
 	os.WriteFile(filepath.Join(dir, "cache", "alice.authorized_keys"), gossh.MarshalAuthorizedKey(sshPub), 0644)
 }
 
+// c14FaultListener is the real TCP listener; on demand the next accepted connection is dropped and Accept reports an
+// error instead (what the kernel does when the client aborted in the backlog or the process has no descriptor left).
+type c14FaultListener struct {
+	net.Listener
+	mu   sync.Mutex
+	fail error
+	hits int
+}
+
+func (l *c14FaultListener) Accept() (net.Conn, error) {
+	conn, err := l.Listener.Accept()
+	l.mu.Lock()
+	fail := l.fail
+	l.fail = nil
+	if fail != nil {
+		l.hits++
+	}
+	l.mu.Unlock()
+	if err == nil && fail != nil {
+		conn.Close()
+		return nil, &net.OpError{Op: "accept", Net: "tcp", Addr: l.Listener.Addr(), Err: fail}
+	}
+	return conn, err
+}
+
+// c14StartFault is c14Start with the fault-injecting listener: what Start() does after net.Listen, done by hand.
+func c14StartFault(t *testing.T, max int) *c14Server {
+	l, err := net.Listen("tcp", "127.0.0.1:0")
+	if err != nil {
+		t.Fatal(err)
+	}
+	config.Server.MaxConnections = max
+	ctx, cancel := context.WithCancel(context.Background())
+	s := New()
+	fl := &c14FaultListener{Listener: l}
+	go s.stats.start(ctx)
+	go s.listenerLoop(ctx, fl)
+	go func() { <-ctx.Done(); l.Close() }()
+	srv := &c14Server{s: s, addr: l.Addr().String(), signer: c14Signer, cancel: cancel, fl: fl}
+	time.Sleep(20 * time.Millisecond)
+	srv.settle()
+	return srv
+}
+
 func c14Start(t *testing.T, max int) *c14Server {
 	signer := c14Signer
 	l, _ := net.Listen("tcp", "127.0.0.1:0")
@@ -169,7 +215,7 @@ func c14Run(srv *c14Server, c c14Case) (res c14Result) {
 		ctr := srv.settle() - base
 		// a stable value that disagrees is re-read for a while: on a loaded machine the server's goroutine may simply not
 		// have run yet (a leaked or double-released slot stays wrong, a late update does not)
-		for dl := time.Now().Add(3 * time.Second); ctr != open && time.Now().Before(dl); {
+		for dl := time.Now().Add(3 * time.Second); ctr != open && len(res.Bad) == 0 && time.Now().Before(dl); {
 			time.Sleep(20 * time.Millisecond)
 			ctr = srv.settle() - base
 		}
@@ -218,6 +264,27 @@ func c14Run(srv *c14Server, c c14Case) (res c14Result) {
 					res.Bad = append(res.Bad, fmt.Sprintf("step %d: connection %d accepted as number %d with MaxConnections = %d", i, st.C, open, c.Max))
 				}
 			}
+		case "accepterror":
+			if cn.state != "none" || srv.fl == nil {
+				break
+			}
+			kind := []error{syscall.ECONNABORTED, syscall.EMFILE, syscall.ENFILE}[rng.Intn(3)]
+			srv.fl.mu.Lock()
+			srv.fl.fail = kind
+			before := srv.fl.hits
+			srv.fl.mu.Unlock()
+			if tcp, err := net.DialTimeout("tcp", srv.addr, time.Second); err == nil {
+				for dl := time.Now().Add(2 * time.Second); time.Now().Before(dl); time.Sleep(2 * time.Millisecond) {
+					srv.fl.mu.Lock()
+					h := srv.fl.hits
+					srv.fl.mu.Unlock()
+					if h > before {
+						break
+					}
+				}
+				tcp.Close()
+			}
+			outcome = "accept failed: " + kind.Error()
 		case "auth":
 			if cn.state != "connected" {
 				break
@@ -380,17 +447,29 @@ func TestC14Replay(t *testing.T) {
 	c14Setup(t, dir)
 	var results []c14Result
 	var srv *c14Server
+	nbad := 0
 	for _, c := range cases {
 		// MaxConnections is read from the global configuration at every accept. A leak found in one history would
 		// taint the following ones, so a server whose count is not back at 0 is replaced.
-		if srv == nil || srv.settle() != 0 {
+		fault := false
+		for _, st := range c.Hist {
+			fault = fault || st.A == "accepterror"
+		}
+		if srv == nil || (srv.fl != nil) != fault || srv.settle() != 0 {
 			if srv != nil {
 				srv.cancel()
 			}
-			srv = c14Start(t, c.Max)
+			if fault {
+				srv = c14StartFault(t, c.Max)
+			} else {
+				srv = c14Start(t, c.Max)
+			}
 		}
 		config.Server.MaxConnections = c.Max
 		results = append(results, c14Run(srv, c))
+		if nbad += len(results[len(results)-1].Bad); nbad > 6 {
+			break // enough to report; every further history would wait for a server that does not recover
+		}
 	}
 	vWriteJSON(t, "VERIF_OUT", results)
 }
